@@ -115,7 +115,9 @@ where
                 SockRecv(Result<usize, std::io::Error>),
             }
 
-            let mut buf = [0; SOCK_SAMPLE_SIZE];
+            // One byte more than a sample: recv truncates a datagram to the buffer, so with an
+            // exactly sample-sized buffer an oversized datagram would report a valid size.
+            let mut buf = [0; SOCK_SAMPLE_SIZE + 1];
 
             let selected: SelectResult = tokio::select! {
                 result = self.socket.recv(&mut buf) => {
@@ -123,8 +125,11 @@ where
                 },
             };
 
+            let mut sample_buf = [0; SOCK_SAMPLE_SIZE];
+            sample_buf.copy_from_slice(&buf[..SOCK_SAMPLE_SIZE]);
+
             match selected {
-                SelectResult::SockRecv(result) => match deserialize_sample(result, buf) {
+                SelectResult::SockRecv(result) => match deserialize_sample(result, sample_buf) {
                     Ok(sample) => {
                         debug!("received {:?}", sample);
                         let leap = match sample.leap {
